@@ -6,7 +6,9 @@
     RF kick are the two energy kicks at the head of the generated step order. *)
 From Coq Require Import List ZArith QArith Qcanon Lia Bool Ring Field.
 From Inovesa Require Import Base.FieldKit Base.Sums Base.Float32 Gen.Gen_Coeffs Model.Kick
-  Model.StepKinds Gen.Gen_StepOrder Model.Haiss Proofs.WeightsP Proofs.KickP Proofs.KickGridP.
+  Model.StepKinds Gen.Gen_StepOrder Model.RunKinds Gen.Gen_WakeUpdate Gen.Gen_Identity Gen.Gen_KickIndex
+  Model.Copy Model.WakeUpdate Model.Haiss Proofs.WeightsP Proofs.KickP Proofs.KickGridP Proofs.CopyP
+  Proofs.HaissGenP.
 Import ListNotations.
 Local Open Scope Z_scope.
 
@@ -318,59 +320,211 @@ Proof.
   reflexivity.
 Qed.
 
-(** ** force law with the offsets the code stores (C05.1) *)
+(** ** the y-kick as the source has it (generated indices, generated [_lastbunch]) *)
 
-Theorem wake_kick_force_law_eff n nb it (wp old : Z -> Qc) (t xc : Qc) (D : Z -> Qc) b x a bb :
-  valid_it it -> 2 <= it -> 0 < n < 2 ^ 30 -> 0 < nb -> 0 <= b < nb -> 0 <= x < n ->
-  let i := b * n + x in
-  let ow := wake_update nb n wp old i in
-  let orf := rf_offsets n t xc i in
-  let r := rowD n D b x in
-  suppQ r a bb ->
-  row_fits n it ow a bb ->
-  row_fits n it orf (a - shift_hi n it ow) (bb - shift_lo n it ow) ->
-  let r' := row_kicks n it (kick_off ow orf) (ykick_prefix step_order) r in
-  ow = wp i /\
-  M0 n r' = M0 n r /\
-  M1 n r' = (M1 n r - (eff_off n (wp i) + eff_off n orf) * M0 n r)%Qc.
+Lemma M0_ext n (r r' : Z -> Qc) : (forall y, r y = r' y) -> M0 n r = M0 n r'.
+Proof. intros H. apply (sumZ_ext QcF). intros y _. apply H. Qed.
+Lemma M1_ext n (r r' : Z -> Qc) : (forall y, r y = r' y) -> M1 n r = M1 n r'.
+Proof. intros H. apply (sumZ_ext QcF). intros y _. rewrite H. reflexivity. Qed.
+
+Lemma didx_in_range n nb b x y :
+  0 < n -> 0 <= b < nb -> 0 <= x < n -> 0 <= y < n -> in_range (nb * n * n) (didx n b x y) = true.
+Proof. intros Hn Hb Hx Hy. apply in_range_true. unfold didx. nia. Qed.
+
+Lemma krow_out n it o r y : y < 0 \/ n <= y -> krow n it o r y = 0%Qc.
+Proof. intros H. unfold krow. change ((0 <=? y) && (y <? n))%bool with (in_range n y). rewrite in_range_false by exact H. reflexivity. Qed.
+
+Lemma in_zrange j m : In j (zrange m) -> 0 <= j < m.
 Proof.
-  intros Hv H2 Hn Hnb Hb Hx i ow orf r Hs F1 F2 r'.
-  assert (Eow : ow = wp i).
-  { unfold ow, wake_update.
-    assert (Hi : 0 <= i < nb * n) by (unfold i; nia).
-    destruct (Z.leb_spec 0 i); destruct (Z.ltb_spec i (nb * n)); cbn [andb]; try lia. reflexivity. }
-  split; [exact Eow|]. rewrite <- Eow.
-  exact (force_law_row n it ow orf r a bb Hv H2 Hn Hs F1 F2).
+  intros Hj. unfold zrange in Hj. apply in_map_iff in Hj. destruct Hj as (k & <- & Hk).
+  apply in_seq in Hk. lia.
 Qed.
 
-(** ... and in the literal form of the property, for the bunch whose RF offsets the code fills
-    (bunch 0) when the float operations involved are exact on the stored values: the row-wise
-    mean energy index changes by t*(x - xc) - W(x) cells *)
-Theorem wake_kick_force_law n nb it (wp old : Z -> Qc) (t xc : Qc) (D : Z -> Qc) x a bb :
-  valid_it it -> 2 <= it -> 0 < n < 2 ^ 30 -> 0 < nb -> 0 <= x < n ->
-  let ow := wake_update nb n wp old x in
-  let orf := rf_offsets n t xc x in
-  let r := rowD n D 0 x in
+(** the generated index expressions of the y branch, for any [_lastbunch]: proved by [ring] only,
+    so a re-associated product survives and a changed stride or a dropped bunch offset does not *)
+Lemma ky_src_gen kd pd ip lb b x y j h : ky_src kd pd ip lb b x y j h = y + h - kd / 2.
+Proof. unfold ky_src. ring. Qed.
+Lemma ky_bound_gen kd pd ip lb b x y j : ky_bound kd pd ip lb b x y j = pd.
+Proof. reflexivity. Qed.
+Lemma ky_read_gen n ip lb b x y j s : ky_read n n ip lb b x y j s = didx n b x s.
+Proof. unfold ky_read, didx. ring. Qed.
+
+(** the table entry the y branch reads for (bunch b, row x, stencil point j) lies in bunch b's OWN
+    block: [min(b,_lastbunch) = b] with the generated [_lastbunch] *)
+Lemma ky_hinfo_own n nb it b x y j :
+  0 <= b < nb ->
+  ky_hinfo (wk_kd n nb) (wk_pd n nb) it (km_lastbunch nb) b x y j = (b * n + x) * it + j.
+Proof.
+  intros Hb. unfold ky_hinfo.
+  first [ rewrite hg_km_lastbunch_model by exact Hb
+        | rewrite (Z.min_comm (km_lastbunch nb) b), hg_km_lastbunch_model by exact Hb ].
+  rewrite hg_wk_pd_model. ring.
+Qed.
+
+(** one output cell: if the table holds, where the y branch looks for (b,x), the row built from
+    the offset [o], the cell is the [krow] of [o] on the bunch's own row *)
+Lemma ykick_cell_is_krow n nb it (H : Z -> Z * Qc) (D : Z -> Qc) o b x y :
+  0 < n -> 0 <= b < nb -> 0 <= x < n -> 0 <= y < n ->
+  (forall j, 0 <= j < it ->
+     H (ky_hinfo (wk_kd n nb) (wk_pd n nb) it (km_lastbunch nb) b x y j) = sm_entry n it o j) ->
+  ykick_cell n nb it H D b x y = krow n it o (rowD n D b x) y.
+Proof.
+  intros Hn Hb Hx Hy HH. rewrite krow_in by lia. unfold rowD.
+  rewrite <- (row_out_restrict n it _ (fun ys => D (didx n b x ys)) y Hn).
+  unfold ykick_cell, row_out. cbv zeta. apply (f_equal qsum). apply map_ext_in. intros j Hj.
+  apply in_zrange in Hj. rewrite HH by exact Hj.
+  rewrite hg_wk_kd_model, hg_wk_pd_model, ky_src_gen, ky_bound_gen, ky_read_gen. reflexivity.
+Qed.
+
+Lemma rowD_gykick n nb it (H : Z -> Z * Qc) (D : Z -> Qc) o b x y :
+  0 < n -> 0 <= b < nb -> 0 <= x < n ->
+  (forall y' j, 0 <= y' < n -> 0 <= j < it ->
+     H (ky_hinfo (wk_kd n nb) (wk_pd n nb) it (km_lastbunch nb) b x y' j) = sm_entry n it o j) ->
+  rowD n (gykick n nb it H D) b x y = krow n it o (rowD n D b x) y.
+Proof.
+  intros Hn Hb Hx HH. unfold rowD at 1.
+  destruct (in_range n y) eqn:E.
+  - unfold in_range in E. apply andb_prop in E. destruct E as [E1' E2]. apply Z.leb_le in E1'. apply Z.ltb_lt in E2.
+    unfold gykick. rewrite (didx_in_range n nb b x y) by lia. rewrite didx_flat.
+    destruct (cell_decode n b x y) as (-> & -> & ->); try lia.
+    apply ykick_cell_is_krow; try lia. intros j Hj. apply HH; lia.
+  - symmetry. apply krow_out. unfold in_range in E. apply andb_false_iff in E.
+    destruct E as [E|E]; [left; apply Z.leb_gt in E | right; apply Z.ltb_ge in E]; lia.
+Qed.
+
+(** what the two tables hold where the y branch looks for bunch [b]: the row built from bunch b's
+    own wake potential entry (WakePotentialMap::update, generated program; Proofs/HaissGenP.v) and
+    from the RF offset of bunch b's block (KickMap::updateSM, generated loops) *)
+Lemma wake_table_own n nb it wp b x y j :
+  valid_it it -> 0 < n -> 0 <= b < nb -> 0 <= x < n -> 0 <= j < it ->
+  wake_table n nb it wp (ky_hinfo (wk_kd n nb) (wk_pd n nb) it (km_lastbunch nb) b x y j) =
+  sm_entry n it (wp (b * n + x)) j.
+Proof.
+  intros Hv Hn Hb Hx Hj. destruct (valid_it_range it Hv) as [Hi _].
+  rewrite ky_hinfo_own by exact Hb.
+  assert (Hr : 0 <= b * n + x < nb * n) by nia.
+  assert (Hk : 0 <= (b * n + x) * it + j < nb * n * it) by nia.
+  rewrite hg_wake_table_spec by (try exact Hk; lia).
+  unfold updateSM. rewrite div_lin, mod_lin by lia. reflexivity.
+Qed.
+
+(** the offset-vector entry of bunch b's own block after update() (what /WakePotential/data records) *)
+Lemma wake_offsets_own n nb it wp b x :
+  0 < n -> 0 <= b < nb -> 0 <= x < n ->
+  wake_offsets n nb it wp (Z.min b (km_lastbunch nb) * wk_pd n nb + x) = wp (b * n + x).
+Proof.
+  intros Hn Hb Hx. rewrite hg_km_lastbunch_model by exact Hb. rewrite hg_wk_pd_model.
+  rewrite hg_wake_offsets_spec. rewrite in_rng_true by nia. reflexivity.
+Qed.
+
+Lemma rf_table_own n nb it t xc b x y j :
+  valid_it it -> 0 < n -> 0 <= b < nb -> 0 <= x < n -> 0 <= j < it ->
+  rf_table n nb it t xc (ky_hinfo (wk_kd n nb) (wk_pd n nb) it (km_lastbunch nb) b x y j) =
+  sm_entry n it (rf_offsets nb n t xc (b * n + x)) j.
+Proof.
+  intros Hv Hn Hb Hx Hj. destruct (valid_it_range it Hv) as [Hi _].
+  rewrite ky_hinfo_own by exact Hb.
+  unfold rf_table. rewrite hg_wk_kd_model, hg_wk_offset_size_model.
+  assert (Hr : 0 <= b * n + x < nb * n) by nia.
+  assert (Hsz : 0 <= nb * n) by lia.
+  assert (Hk : 0 <= (b * n + x) * it + j < nb * n * it) by nia.
+  rewrite hg_updateSM_loop_spec by lia.
+  rewrite in_rng_true by exact Hk. unfold updateSM. rewrite div_lin, mod_lin by lia. reflexivity.
+Qed.
+
+(** the rows of the two energy kicks of the grid, for EVERY bunch *)
+Theorem gkick_wake_rows n nb it wp (D : Z -> Qc) b x y :
+  valid_it it -> 0 < n -> 0 <= b < nb -> 0 <= x < n ->
+  rowD n (gkick_wake n nb it wp D) b x y = krow n it (wp (b * n + x)) (rowD n D b x) y.
+Proof.
+  intros Hv Hn Hb Hx. unfold gkick_wake. apply rowD_gykick; try assumption.
+  intros y' j Hy Hj. apply wake_table_own; assumption.
+Qed.
+
+Theorem gkick_rf_rows n nb it t xc (D : Z -> Qc) b x y :
+  valid_it it -> 0 < n -> 0 <= b < nb -> 0 <= x < n ->
+  rowD n (gkick_rf n nb it t xc D) b x y = krow n it (rf_offsets nb n t xc (b * n + x)) (rowD n D b x) y.
+Proof.
+  intros Hv Hn Hb Hx. unfold gkick_rf. apply rowD_gykick; try assumption.
+  intros y' j Hy Hj. apply rf_table_own; assumption.
+Qed.
+
+Lemma rf_offsets_in nb n t xc b x :
+  0 < n -> 0 <= b < nb -> 0 <= x < n ->
+  rf_offsets nb n t xc (b * n + x) = rnd32 (t * rnd32 (xc - Qcz x))%Qc.
+Proof.
+  intros Hn Hb Hx. unfold rf_offsets.
+  assert (Hi : 0 <= b * n + x < nb * n) by nia.
+  destruct (Z.leb_spec 0 (b * n + x)); destruct (Z.ltb_spec (b * n + x) (nb * n)); cbn [andb]; try lia.
+  rewrite mod_lin by lia. reflexivity.
+Qed.
+
+Theorem gkick_rf_rows_offsets n nb it t xc (D : Z -> Qc) b x y :
+  valid_it it -> 0 < n -> 0 <= b < nb -> 0 <= x < n ->
+  rowD n (gkick_rf n nb it t xc D) b x y = krow n it (rf_offsets nb n t xc (b * n + x)) (rowD n D b x) y /\
+  rf_offsets nb n t xc (b * n + x) = rnd32 (t * rnd32 (xc - Qcz x))%Qc.
+Proof.
+  intros Hv Hn Hb Hx. split; [apply gkick_rf_rows; assumption | apply rf_offsets_in; assumption].
+Qed.
+
+(** ** force law with the offsets the code stores (C05.1), for every bunch *)
+
+(** row (b,x) of the grid after the energy kicks at the head of the generated step order, applied
+    as the code applies them ([energy_kicks]): charge kept, first moment moved by minus the sum of
+    the effective offsets of bunch b's OWN wake potential entry and of the RF offset *)
+Theorem wake_kick_force_law_eff n nb it (wp : Z -> Qc) (t xc : Qc) (D : Z -> Qc) b x a bb :
+  valid_it it -> 2 <= it -> 0 < n < 2 ^ 30 -> 0 <= b < nb -> 0 <= x < n ->
+  let i := b * n + x in
+  let W := wp i in
+  let orf := rf_offsets nb n t xc i in
+  let r := rowD n D b x in
   suppQ r a bb ->
-  row_fits n it ow a bb ->
-  row_fits n it orf (a - shift_hi n it ow) (bb - shift_lo n it ow) ->
+  row_fits n it W a bb ->
+  row_fits n it orf (a - shift_hi n it W) (bb - shift_lo n it W) ->
+  let r' := rowD n (energy_kicks n nb it wp t xc (ykick_prefix step_order) D) b x in
+  wp_flat nb n b x = i /\
+  wake_offsets n nb it wp (Z.min b (km_lastbunch nb) * wk_pd n nb + x) = W /\
+  M0 n r' = M0 n r /\
+  M1 n r' = (M1 n r - (eff_off n W + eff_off n orf) * M0 n r)%Qc.
+Proof.
+  intros Hv H2 Hn Hb Hx i W orf r Hs F1 F2 r'.
+  split; [apply hg_wp_flat_model|]. split.
+  { apply wake_offsets_own; assumption || lia. }
+  assert (E : forall y, r' y = krow n it orf (krow n it W r) y).
+  { intros y. unfold r'. change (ykick_prefix step_order) with [MWake; MRF].
+    cbn [energy_kicks fold_left energy_kick].
+    rewrite gkick_rf_rows by (assumption || lia). apply krow_ext. intros u.
+    apply gkick_wake_rows; assumption || lia. }
+  rewrite (M0_ext n _ _ E), (M1_ext n _ _ E).
+  exact (two_kicks n it W orf r a bb Hv H2 Hn Hs F1 F2).
+Qed.
+
+(** ... and in the literal form of the property, for every bunch, when the float operations
+    involved are exact on the stored values: the row-wise mean energy index of row x of bunch b
+    changes by t*(x - xc) - W_b(x) cells, W_b(x) = wp(b*n+x) bunch b's own wake potential *)
+Theorem wake_kick_force_law n nb it (wp : Z -> Qc) (t xc : Qc) (D : Z -> Qc) b x a bb :
+  valid_it it -> 2 <= it -> 0 < n < 2 ^ 30 -> 0 <= b < nb -> 0 <= x < n ->
+  let W := wp (b * n + x) in
+  let orf := rf_offsets nb n t xc (b * n + x) in
+  let r := rowD n D b x in
+  suppQ r a bb ->
+  row_fits n it W a bb ->
+  row_fits n it orf (a - shift_hi n it W) (bb - shift_lo n it W) ->
   rnd32 (xc - Qcz x)%Qc = (xc - Qcz x)%Qc ->
   rnd32 (t * (xc - Qcz x))%Qc = (t * (xc - Qcz x))%Qc ->
-  rnd32 (Qcz (n / 2) + wp x)%Qc = (Qcz (n / 2) + wp x)%Qc ->
+  rnd32 (Qcz (n / 2) + W)%Qc = (Qcz (n / 2) + W)%Qc ->
   rnd32 (Qcz (n / 2) + t * (xc - Qcz x))%Qc = (Qcz (n / 2) + t * (xc - Qcz x))%Qc ->
-  let r' := row_kicks n it (kick_off ow orf) (ykick_prefix step_order) r in
+  let r' := rowD n (energy_kicks n nb it wp t xc (ykick_prefix step_order) D) b x in
   M0 n r' = M0 n r /\
-  M1 n r' = (M1 n r + (t * (Qcz x - xc) - wp x) * M0 n r)%Qc.
+  M1 n r' = (M1 n r + (t * (Qcz x - xc) - W) * M0 n r)%Qc.
 Proof.
-  intros Hv H2 Hn Hnb Hx ow orf r Hs F1 F2 R0 R1 R2 R3 r'.
-  destruct (wake_kick_force_law_eff n nb it wp old t xc D 0 x a bb Hv H2 Hn Hnb ltac:(lia) Hx
-              Hs F1 F2) as (E & C0 & C1).
-  change (0 * n + x) with x in *. split; [exact C0|].
-  unfold r', ow, orf, r. rewrite C1.
-  assert (Erf : rf_offsets n t xc x = (t * (xc - Qcz x))%Qc).
-  { unfold rf_offsets. destruct (Z.leb_spec 0 x); destruct (Z.ltb_spec x n); cbn [andb]; try lia.
-    rewrite R0. exact R1. }
-  rewrite Erf. unfold eff_off. rewrite R2, R3. ring.
+  intros Hv H2 Hn Hb Hx W orf r Hs F1 F2 R0 R1 R2 R3 r'.
+  destruct (wake_kick_force_law_eff n nb it wp t xc D b x a bb Hv H2 Hn Hb Hx Hs F1 F2)
+    as (_ & _ & C0 & C1).
+  split; [exact C0|].
+  unfold r', r. rewrite C1. fold W.
+  rewrite rf_offsets_in by (assumption || lia). rewrite R0, R1.
+  unfold eff_off. rewrite R2, R3. ring.
 Qed.
 
 (** ** example data for the non-vacuity examples of Props/Properties_C05.v *)
@@ -378,4 +532,61 @@ Definition ex_wp : Z -> Qc := fun _ => Q2Qc (1 # 4).
 Definition ex_t : Qc := Q2Qc (1 # 8).
 Definition ex_xc : Qc := Q2Qc (11 # 2).
 Definition ex_D : Z -> Qc := fun i => if (i =? 4 * 12 + 5) then Qcz 3 else if (i =? 4 * 12 + 6) then Qcz 5 else 0%Qc.
+(** two bunches with unequal wakes: 1/4 cell everywhere in bunch 0, 1/2 cell in bunch 1; data 3,5 in
+    cells 5,6 of row 4 of bunch 1 (and 2,1 in the same cells of bunch 0) *)
+Definition ex2_wp : Z -> Qc := fun i => if i <? 12 then Q2Qc (1 # 4) else Q2Qc (1 # 2).
+Definition ex2_D : Z -> Qc := fun i =>
+  if (i =? 144 + 4 * 12 + 5) then Qcz 3 else if (i =? 144 + 4 * 12 + 6) then Qcz 5 else
+  if (i =? 4 * 12 + 5) then Qcz 2 else if (i =? 4 * 12 + 6) then Qcz 1 else 0%Qc.
 
+Lemma ex_D_supp : suppQ (rowD 12 ex_D 0 4) 5 7.
+Proof.
+  intros y Hy. unfold rowD. destruct (in_range 12 y) eqn:E; [|reflexivity].
+  unfold ex_D, didx.
+  destruct (Z.eqb_spec (0 * 12 * 12 + 4 * 12 + y) (4 * 12 + 5)); [lia|].
+  destruct (Z.eqb_spec (0 * 12 * 12 + 4 * 12 + y) (4 * 12 + 6)); [lia|]. reflexivity.
+Qed.
+
+Lemma ex2_D_supp : suppQ (rowD 12 ex2_D 1 4) 5 7.
+Proof.
+  intros y Hy. unfold rowD. destruct (in_range 12 y) eqn:E; [|reflexivity].
+  apply andb_prop in E. destruct E as [E1 E2]. apply Z.leb_le in E1. apply Z.ltb_lt in E2.
+  unfold ex2_D, didx.
+  destruct (Z.eqb_spec (1 * 12 * 12 + 4 * 12 + y) (144 + 4 * 12 + 5)); [lia|].
+  destruct (Z.eqb_spec (1 * 12 * 12 + 4 * 12 + y) (144 + 4 * 12 + 6)); [lia|].
+  destruct (Z.eqb_spec (1 * 12 * 12 + 4 * 12 + y) (4 * 12 + 5)); [lia|].
+  destruct (Z.eqb_spec (1 * 12 * 12 + 4 * 12 + y) (4 * 12 + 6)); [lia|]. reflexivity.
+Qed.
+
+Lemma force_law_example_hypotheses :
+  let W := ex_wp (0 * 12 + 4) in
+  let orf := rf_offsets 1 12 ex_t ex_xc (0 * 12 + 4) in
+  suppQ (rowD 12 ex_D 0 4) 5 7 /\
+  row_fits 12 4 W 5 7 /\
+  row_fits 12 4 orf (5 - shift_hi 12 4 W) (7 - shift_lo 12 4 W) /\
+  rnd32 (ex_xc - Qcz 4)%Qc = (ex_xc - Qcz 4)%Qc /\
+  rnd32 (ex_t * (ex_xc - Qcz 4))%Qc = (ex_t * (ex_xc - Qcz 4))%Qc /\
+  rnd32 (Qcz (12 / 2) + W)%Qc = (Qcz (12 / 2) + W)%Qc /\
+  rnd32 (Qcz (12 / 2) + ex_t * (ex_xc - Qcz 4))%Qc = (Qcz (12 / 2) + ex_t * (ex_xc - Qcz 4))%Qc.
+Proof.
+  cbv zeta. split; [exact ex_D_supp|].
+  repeat split; try (apply Qc_is_canon; vm_compute; reflexivity);
+    vm_compute; try discriminate; reflexivity.
+Qed.
+
+Lemma force_law_example2_hypotheses :
+  let W := ex2_wp (1 * 12 + 4) in
+  let orf := rf_offsets 2 12 ex_t ex_xc (1 * 12 + 4) in
+  suppQ (rowD 12 ex2_D 1 4) 5 7 /\
+  row_fits 12 4 W 5 7 /\
+  row_fits 12 4 orf (5 - shift_hi 12 4 W) (7 - shift_lo 12 4 W) /\
+  rnd32 (ex_xc - Qcz 4)%Qc = (ex_xc - Qcz 4)%Qc /\
+  rnd32 (ex_t * (ex_xc - Qcz 4))%Qc = (ex_t * (ex_xc - Qcz 4))%Qc /\
+  rnd32 (Qcz (12 / 2) + W)%Qc = (Qcz (12 / 2) + W)%Qc /\
+  rnd32 (Qcz (12 / 2) + ex_t * (ex_xc - Qcz 4))%Qc = (Qcz (12 / 2) + ex_t * (ex_xc - Qcz 4))%Qc /\
+  ex2_wp (1 * 12 + 4) <> ex2_wp (0 * 12 + 4).
+Proof.
+  cbv zeta. split; [exact ex2_D_supp|].
+  repeat split; try (apply Qc_is_canon; vm_compute; reflexivity);
+    vm_compute; try discriminate; reflexivity.
+Qed.
